@@ -73,6 +73,11 @@ impl FlowGen {
             };
         }
         match self.rng.weighted(&[10, 12, 12, 6, 5, 5, 4, 4, 4, 4, 3, 3, 2, 2]) {
+            0 if self.rng.chance(1, 5) => {
+                // unary minus on a literal: `-` is looked up like any other function
+                self.feat("unary-minus");
+                Ex::Call(Box::new(var("-")), vec![int(self.rng.range(0, 9))])
+            }
             0 => self.int_lit(),
             1 => {
                 if ctx.ints.is_empty() {
@@ -533,6 +538,16 @@ impl FlowGen {
         }
         match self.rng.weighted(&[14, 6, 6, 6, 5, 5, 4, 4, 3, 3, 4, 3]) {
             0 => self.simple_stmt(ctx),
+            1 if self.rng.chance(1, 4) => {
+                // both branches declare the same name: it is declared afterwards whichever ran
+                self.feat("declared-in-both-branches");
+                let c = self.int_expr(ctx, 2);
+                let name = self.fresh("x");
+                let a = declare(&name, self.int_expr(ctx, 1));
+                let b = declare(&name, self.int_expr(ctx, 1));
+                ctx.ints.push(name);
+                Ex::If(Box::new(c), Box::new(Ex::Seq(vec![a], false)), Some(Box::new(Ex::Seq(vec![b], false))))
+            }
             1 => {
                 // if / if-else; branches do not open a scope, so their declarations are not used later
                 let c = self.int_expr(ctx, 2);
@@ -757,6 +772,12 @@ impl FlowGen {
         inner.consts.retain(|x| x != &v);
         if !inner.ints.contains(&v) {
             inner.ints.push(v.clone());
+        }
+        if self.rng.chance(1, 2) {
+            // read the outer variable first: until the local declaration runs, the name means the
+            // outer one (also in the same block)
+            self.feat("outer-read-before-local-declaration");
+            body.push(call("print", vec![var(&v)]));
         }
         body.push(declare(&v, int(self.rng.range(50, 59))));
         body.push(Ex::OpAssign(false, Box::new(lv(&v)), "+".into(), Box::new(int(1))));
